@@ -58,7 +58,10 @@ RULE = ("random histories (1-24 ops) of add/addN/remove(wildcards)/set/+=/-=/+ -
         "a further stream calls the Memory API directly (store.add, store.remove(pattern, graph | None), add_graph, remove_graph) "
         "interleaved with Graph calls; after every op len / list(g) / 7 wild-carded shapes / membership per graph and the store API "
         "(store.triples(pattern, None | graph) with the graphs reported per triple, len(store), store.contexts(), store.contexts(t)) "
-        "are compared with the model and with a set-of-quads + set-of-graph-keys oracle. "
+        "and Graph.triples_choices (a list of 0-3 terms in one rotating position) "
+        "are compared with the model (the compiled NESTED-dictionary model; pattern observations = its generator machine run to "
+        "exhaustion) and with a set-of-quads + set-of-graph-keys oracle; every real generator is also replayed next() by next() "
+        "on the concrete generator machine (statistics gen_exact / gen_diverge). "
         "non-trivial = some remove deleted a triple and (mem) some triple was in two graphs at once; distinct = distinct op lists")
 ASSUMPTIONS = ["quoted statements (QuotedGraph / formula-aware add) are outside the property; quoted=False everywhere",
                "single thread; event dispatch of Store.add/remove has no subscribers",
@@ -66,7 +69,8 @@ ASSUMPTIONS = ["quoted statements (QuotedGraph / formula-aware add) are outside 
                "iteration-under-mutation safety on the default store only; `g -= g` on SimpleMemory raises RuntimeError)",
                "graph identifiers are truthy IdentifiedNodes (a falsy identifier is replaced by Graph.__init__; C02's ground)"]
 TRUSTED = ["harness/c01.py generators, set oracle and canonicalisation", "lean/RV/C01/Drive.lean line protocol",
-           "the nested-dict layout inside one index is abstracted to a finite set with lookup by bound positions"]
+           "a Python dict is an insertion-ordered association list; dictionaries referenced by a suspended generator are "
+           "never replaced (reference = lookup by path); the hash order of the set copied by the all-unbound fast path is not modelled"]
 
 TERMS = [Literal(""), Literal(0), Literal(False), URIRef(""), URIRef("http://e/x"), BNode("x"), Literal("x"),
          Literal("x", lang="en"), Literal("1"), Literal(1), Variable("x"), Literal(0.0)]
@@ -158,20 +162,41 @@ def gen_case(rng, tier, i):
         # predicates / objects with A's), are emptied again, …  The iteration must still yield A's triples only.
         writer = rng.random() < 0.4
         ga = rng.choice(G)
-        for _ in range(rng.randint(2, 8)):
+        # "deep" variant (round g): one subject with up to 3 predicates x 2 objects in the iterated graph, generators over
+        # the TWO-LEVEL shapes, and between single next() steps whole second-level groups are removed (emptying an inner
+        # dictionary whose key the suspended generator has already copied) and re-added under old and new keys
+        deep = rng.random() < 0.35
+        dts = []
+        if deep:
+            s0, dp, do = rng.choice(S), rng.sample(ids, 3), rng.sample(ids, 2)
+            dts = [[s0, p_, o_] for p_ in dp for o_ in do if rng.random() < 0.8] or [[s0, dp[0], do[0]]]
+            for t in dts:
+                if t not in pool:
+                    pool.append(t)
+                ops.append(["add", ga, rng.randint(0, 1)] + t)
+        for _ in range(rng.randint(0 if deep else 2, 3 if deep else 8)):
             ops.append(["add", ga if writer else rng.choice(G), rng.randint(0, 1)] + pick())
         first_g = ops[0][1]
         nit = rng.randint(1, 3)
         for k in range(nit):
-            t = pick()
-            m = rng.choice([1, 2, 3, 4, 4, 5, 6, 6, 7])
+            t = rng.choice(dts) if deep else pick()
+            m = rng.choice([6, 6, 2, 2, 5, 3]) if deep else rng.choice([1, 2, 3, 4, 4, 5, 6, 6, 7])
             gi = first_g if rng.random() < (0.9 if writer else 0.6) else rng.choice(G)
             ops.append(["iopen", k, gi, rng.randint(0, 1)] + [None if m & 1 else t[0], None if m & 2 else t[1], None if m & 4 else t[2]])
         for _ in range(rng.randint(3, 12)):
             ops.append(["istep", rng.randrange(nit), 1])
             for _ in range(rng.randint(0, 2)):
                 g, via, r = rng.choice(G), rng.randint(0, 1), rng.random()
-                if writer and r < 0.6:
+                if deep and r < 0.65:
+                    t = rng.choice(dts)
+                    if rng.random() < 0.6:   # remove a whole second-level group of the iterated graph / of every graph
+                        m = rng.choice([4, 4, 4, 5, 0, 1, 2])
+                        pt = [None if m & 1 else t[0], None if m & 2 else t[1], None if m & 4 else t[2]]
+                        ops.append(["remove", first_g, via] + pt if rng.random() < 0.8 else ["st_remove", None, via] + pt)
+                    else:                    # put something back under an old or a new key
+                        t2 = list(t) if rng.random() < 0.5 else [t[0], rng.choice(ids), rng.choice(ids)]
+                        ops.append(["add", first_g if rng.random() < 0.7 else g, via] + t2)
+                elif writer and r < 0.6:
                     gb = rng.choice([x for x in G if x != ga])
                     t = pick() if rng.random() < 0.5 else tr()
                     w_ = rng.random()
